@@ -119,7 +119,24 @@ theorem lensRaw_eq (r1 r2 d : ℝ) (h1 : 0 < r1) (hd : 0 < d) :
     lensRaw realFns r1 r2 d (arccos (q r1 r2 d)) (arccos (q r2 r1 d)) = lensStd r1 r2 d := by
   unfold lensRaw lensStd; simp only [realFns]; rw [kite_eq r1 r2 d h1 hd]
 
-/-- the third branch over the reals: the clamps around the quotients are identities. -/
+/-- the quotient is scale-invariant. -/
+theorem q_scale (r1 r2 d s : ℝ) (hs : 0 < s) : q (r1 / s) (r2 / s) (d / s) = q r1 r2 d := by
+  unfold q
+  by_cases h : 2 * r1 * d = 0
+  · have : 2 * (r1 / s) * (d / s) = 0 := by
+      have : 2 * (r1 / s) * (d / s) = 2 * r1 * d / (s * s) := by field_simp
+      rw [this, h, zero_div]
+    rw [h, this, div_zero, div_zero]
+  · have h1 : r1 ≠ 0 := fun h' => h (by rw [h']; ring)
+    have hd : d ≠ 0 := fun h' => h (by rw [h']; ring)
+    field_simp
+
+theorem lensRaw_scale (r1 r2 d s al be : ℝ) (hs : 0 < s) :
+    lensRaw realFns (r1 / s) (r2 / s) (d / s) al be * s * s = lensRaw realFns r1 r2 d al be := by
+  unfold lensRaw; simp only [realFns]; field_simp
+
+/-- the third branch over the reals: the rescaling cancels, no divisor vanishes and the clamps around the
+    quotients are identities. -/
 theorem areaD_lens (r1 r2 d : ℝ) (h1 : 0 < r1) (h2 : 0 < r2) (hlo : |r1 - r2| < d) (hhi : d ≤ r1 + r2) :
     areaD realFns r1 r2 d = .ok (min (π * (min r1 r2) ^ 2) (max 0 (lensStd r1 r2 d))) := by
   have hd : 0 < d := lt_of_le_of_lt (abs_nonneg _) hlo
@@ -129,15 +146,28 @@ theorem areaD_lens (r1 r2 d : ℝ) (h1 : 0 < r1) (h2 : 0 < r2) (hlo : |r1 - r2| 
   have a2 := q_le_one r1 r2 d h1 h2 hlo hhi
   have b1 := neg_one_le_q r2 r1 d h2 h1 hlo'
   have b2 := q_le_one r2 r1 d h2 h1 hlo' hhi'
+  have hs : 0 < max r1 r2 := lt_max_of_lt_left h1
+  have ha : 0 < r1 / max r1 r2 := div_pos h1 hs
+  have hb : 0 < r2 / max r1 r2 := div_pos h2 hs
+  have he : 0 < d / max r1 r2 := div_pos hd hs
   unfold areaD
   rw [if_neg (not_lt.mpr hhi)]
   simp only [pyAbs_eq]
-  rw [if_neg (not_le.mpr hlo), quot_eq r1 r2 d h1 hd, quot_eq r2 r1 d h2 hd]
-  simp only [bind, Except.bind, clamp_eq _ a1 a2, clamp_eq _ b1 b2]
+  rw [if_neg (not_le.mpr hlo)]
+  simp only [pyMax_eq', pyDiv_eq _ _ hs.ne', bind, Except.bind]
+  have hz1 : ¬ isZero (two * (r1 / max r1 r2) * (d / max r1 r2)) := by
+    unfold isZero; simp only [two_eq, zero_eq]; intro h; have : 0 < 2 * (r1 / max r1 r2) * (d / max r1 r2) := by positivity
+    linarith [h.1]
+  have hz2 : ¬ isZero (two * (r2 / max r1 r2) * (d / max r1 r2)) := by
+    unfold isZero; simp only [two_eq, zero_eq]; intro h; have : 0 < 2 * (r2 / max r1 r2) * (d / max r1 r2) := by positivity
+    linarith [h.1]
+  rw [if_neg (by rintro (h | h); exact hz1 h; exact hz2 h)]
+  rw [quot_eq _ _ _ ha he, quot_eq _ _ _ hb he]
+  simp only [q_scale _ _ _ _ hs, clamp_eq _ a1 a2, clamp_eq _ b1 b2]
   have e1 : realFns.acos (q r1 r2 d) = .ok (arccos (q r1 r2 d)) := by simp [realFns, a1, a2]
   have e2 : realFns.acos (q r2 r1 d) = .ok (arccos (q r2 r1 d)) := by simp [realFns, b1, b2]
   rw [e1, e2]
-  simp only [lensRaw_eq r1 r2 d h1 hd, small_eq, pyMin_eq', pyMax_eq', zero_eq]
+  simp only [lensRaw_scale _ _ _ _ _ _ hs, lensRaw_eq r1 r2 d h1 hd, small_eq, pyMin_eq', pyMax_eq', zero_eq]
 
 theorem rq_add (r1 r2 d : ℝ) (h1 : 0 < r1) (h2 : 0 < r2) (hd : 0 < d) :
     r1 * q r1 r2 d + r2 * q r2 r1 d = d := by
